@@ -123,6 +123,16 @@ def f64Fraction (w : Nat) : Nat := w % 2 ^ 52
 /-- The pattern with the given fields. -/
 def f64Pack (sign exponent fraction : Nat) : Nat := sign * 2 ^ 63 + exponent * 2 ^ 52 + fraction
 
+/-- `f64::is_finite` on the pattern: the exponent field is not all ones (all ones = an infinity when
+the fraction is zero, a NaN otherwise). -/
+def f64IsFinite (w : Nat) : Bool := f64Exponent w != 2047
+
+/-- `CVD` on a string of 8 bytes (`cvd.rs` since 181b08f): the pattern `bytes_to_f64` reads, or
+Overflow (`none`) when that pattern encodes an infinity or a NaN — such a value is never handed to
+the program. (The length check is before: a string that is not 8 bytes long is Illegal function call.) -/
+def cvd (bytes : List Nat) : Option Nat :=
+  if f64IsFinite (bytesToF64 bytes) then some (bytesToF64 bytes) else none
+
 /-! ### The specification side: 16-bit two's-complement words as naturals `< 65536`. -/
 
 /-- The unsigned 16-bit word of an INTEGER value. -/
